@@ -915,9 +915,6 @@ package astits
 //@ extern bytes.Equal
 //@   ensures doc: result == sameBytes(a, b)
 
-// isPSIComplete is specified only as far as add needs it (it allocates nothing the caller
-// can see and changes no packet); its result is left uninterpreted here.
-//@ extern isPSIComplete
 
 //@ func (*packetAccumulator).add
 //@   requires b != nil && p != nil && (p.Header.HasAdaptationField ==> p.AdaptationField != nil)
@@ -948,6 +945,57 @@ package astits
 //@   opt noframe
 //@   ensures [C06,C07] tei: p.Header.TransportErrorIndicator ==> len(ps) == 0
 //@   ensures [C06,C07] nopayload: !p.Header.HasPayload ==> len(ps) == 0
+
+// ---------------------------------------------------------------------------
+// pools.go / data.go
+
+// sync.Pool (assumed): bytesPool only ever holds *bytesPoolItem values - its New function makes one and
+// bytesPooler.put, the only caller of Put, is typed to take one. The item's slice is a well-formed slice.
+//@ extern (*sync.Pool).Get
+//@   ensures pool: dyn(result, bytesPoolItem) && base(result) != nil && 0 <= len(as(result, bytesPoolItem).s) && len(as(result, bytesPoolItem).s) <= cap(as(result, bytesPoolItem).s) && cap(as(result, bytesPoolItem).s) < 0x1000000000000 && allocated(as(result, bytesPoolItem).s)
+//@ extern (*sync.Pool).Put
+
+// The buffer handed out has exactly the requested length: parseData and isPSIComplete build their
+// iterator over payload.s, so one stale byte more would be parsed as if it had been received.
+//@ func (*bytesPooler).get
+//@   opt sweep:C03
+//@   requires bp != nil && 0 <= size && size < 0x1000000000000
+//@   modifies payload.s
+//@   ensures [C09,C02,C07,C16,C03] exact: payload != nil && len(payload.s) == size && size <= cap(payload.s) && allocated(payload.s)
+
+// isPSIComplete walks the section headers of the concatenated payloads. What is pinned down here is its verdict
+// at the end of the walk: sections that end exactly with the received bytes are complete, sections that claim
+// more bytes than were received are not (the walk itself - pointer field, table ids, 12-bit lengths - is
+// verified for safety only).
+//@ func isPSIComplete
+//@   opt sweep:C03
+//@   opt noframe
+//@   opt nopre
+//@   requires 0 <= len(ps) && len(ps) < 0x10000 && allocated(ps) && forall(k, 0, len(ps), pktOK(ps[k]))
+//@   loop 0 invariant [C03,C02] sum: rangeindex == iter - 1 && iter <= len(ps) && 0 <= l && l <= iter * 0x10000
+//@   loop 1 invariant [C03,C02] cp: rangeindex == iter - 1 && iter <= len(ps) && 0 <= o && o <= len(payload.s) && payload != nil && len(payload.s) == l && len(payload.s) <= cap(payload.s) && allocated(payload.s) && 0 <= l && l < 0x100000000
+//@   loop 2 invariant [C03,C02] it: itOK(i) && len(i.bs) == l && 0 <= l && l < 0x100000000
+//@   at return#last assert [C02] exactfit: i.offset == len(i.bs) ==> result
+//@   at return#last assert [C02] overrun: i.offset > len(i.bs) ==> !result
+
+// toData only re-packages the parsed sections (assumed to neither fail nor touch the packets).
+//@ extern (*PSIData).toData
+
+// parseData: the unit group is parsed from exactly the bytes of its packets' payloads (the iterator handed to
+// parsePSIData / parsePESData spans the pooled buffer of exactly l bytes, from offset 0), and a custom
+// PacketsParser that asks to skip gets the last word: the built-in parsing is never reached.
+//@ func parseData
+//@   opt sweep:C03
+//@   opt noframe
+//@   requires 0 < len(ps) && len(ps) < 0x10000 && allocated(ps) && forall(k, 0, len(ps), pktOK(ps[k]))
+//@   requires pm != nil && pm.p != nil
+//@   loop 0 invariant [C03,C02,C09,C19] sum: rangeindex == iter - 1 && iter <= len(ps) && 0 <= l && l <= iter * 0x10000
+//@   loop 1 invariant [C03,C02,C09,C19] cp: rangeindex == iter - 1 && iter <= len(ps) && 0 <= c && c <= len(payload.s) && payload != nil && len(payload.s) == l && len(payload.s) <= cap(payload.s) && allocated(payload.s) && 0 <= l && l < 0x100000000
+//@   ensures [C19] skipds: prs != nil && ret(prs, 2) == nil && ret(prs, 1) ==> err == nil && ds == ret(prs, 0)
+//@   ensures [C19,C18] prserr: prs != nil && ret(prs, 2) != nil ==> err != nil
+//@   at call (*bytesPooler).get#0 assert [C19] notskipped: prs == nil || !ret(prs, 1)
+//@   at call parsePSIData#0 assert [C09,C02] span: len($i.bs) == l && $i.offset == 0
+//@   at call parsePESData#0 assert [C02] span: len($i.bs) == l && $i.offset == 0
 
 // ---------------------------------------------------------------------------
 // demuxer.go / packet_buffer.go
